@@ -357,10 +357,26 @@ def keys_rules(ctx):
     R.check("C15-D3c key pair belongs together and errors are reported", ("ValueError", "GeneratorError") in conv, "unsupported combinations are reported as GeneratorError",
             mod=ck.module, node=ck.node, function=ctx.fq(ck), expected="except ValueError -> GeneratorError", found=f"{sorted(conv)}")
     wp = kg.methods["_write_keypair"]
-    wsrc = ast.unparse(wp.node)
-    R.check("C15-D3c key pair belongs together and errors are reported", "self._write(private, f'{file_name_prefix}_priv.{encoding}')" in wsrc
-            and "self._write(public, f'{file_name_prefix}_pub.{encoding}')" in wsrc, "private -> <prefix>_priv.<enc>, public -> <prefix>_pub.<enc>",
-            mod=wp.module, node=wp.node, function=ctx.fq(wp), expected="_priv / _pub file names", found="not recognised")
+    # decided on the writes of the evaluated method (its private helpers followed): which bytes go to which file name, in binary mode
+    evw = Evaluator(repo, inline_depth=2, inline_filter=lambda f: f.cls is kg and f is not wp)
+    wouts = [o for o in evw.outcomes(wp) if o.kind == "return"]
+    okw, foundw = len(wouts) == 1, f"{len(wouts)} normal outcomes"
+    if okw:
+        writes = [e for e in all_effects(wouts[0].effects) if isinstance(e, App) and e.op == "eff:write"]
+        got_w = {}
+        try:
+            for e in writes:
+                fh = e.args[0]
+                name_ = teval(fh.args[0], {"param:file_name_prefix": "out/key", "param:encoding": "pem"})
+                got_w[name_] = (e.args[1], fh.args[1])
+        except Unknown as ex:
+            raise AnalysisError(f"{ctx.fq(wp)}: file name of a key file not evaluable ({ex})")
+        want_w = {"out/key_priv.pem": (Sym("param:private"), Const("wb")), "out/key_pub.pem": (Sym("param:public"), Const("wb"))}
+        okw = got_w == want_w and len(writes) == 2
+        foundw = f"{ {k: (repr(v[0]), repr(v[1])) for k, v in got_w.items()} }"[:300]
+    R.check("C15-D3c key pair belongs together and errors are reported", okw, "private -> <prefix>_priv.<enc>, public -> <prefix>_pub.<enc>",
+            mod=wp.module, node=wp.node, function=ctx.fq(wp), expected="two binary writes: the private bytes to <prefix>_priv.<encoding>, the public bytes to <prefix>_pub.<encoding>",
+            found=foundw)
     # CLI choices are the tables' own keys
     R.rule("C15-D3d CLI choices", 5, "every choices= list is the key set of the table that is indexed")
     aa = repo.func(KEYS, "add_arguments")
